@@ -38,6 +38,11 @@ def _imports():
     return eh, en
 
 
+# block moves between the internal memory and an external operand (register-indirect / absolute / memory-indirect): the only
+# counted instructions whose documented meaning extends to block lengths above 256
+BLOCK_OPS = {0xD3, 0xDB, 0xE3, 0xEB, 0x56, 0x5E, 0xF3, 0xFB}
+
+
 def make_state(en, enc: bytes, st_seed: int, variant: str) -> Dict[str, Any]:
     rnd = random.Random(st_seed)
     st = en.state_for(enc, rnd)
@@ -53,6 +58,11 @@ def make_state(en, enc: bytes, st_seed: int, variant: str) -> Dict[str, Any]:
                 st["imem"][off] = rnd.choice([0x00, 0xFF, 0x01, 0x80, 0x7F, 0xFE])
     if variant == "long" and op in en.COUNTED_OPS:
         st["regs"]["I"] = rnd.choice([5, 7, 8])
+    if variant == "block" and op in BLOCK_OPS:
+        # block lengths that need both bytes of I (the internal operand then sweeps the whole internal memory once or twice)
+        st["regs"]["I"] = rnd.choice([0x100, 0x101, 0x1FF, 0x200, 0x234])
+        for r in ("X", "Y", "U"):                       # keep the external walk inside the address space and away from the code
+            st["regs"][r] = rnd.choice([0x20000, 0x30400, 0x7F000]) + rnd.randrange(0x100)
     return st
 
 
@@ -297,6 +307,11 @@ def run(cr: CheckRun) -> None:
             rid += 1
             variant = "" if k == 0 else ("wide" if k % 2 == 1 else "long")
             items.append((rid, e, rnd.getrandbits(30), variant))
+    blk = [e for e in encs if en.opcode_of(e) in BLOCK_OPS]
+    rnd2 = random.Random(cr.seed + 5)
+    for e in (rnd2.sample(blk, min(len(blk), 48)) if quick else blk):
+        rid += 1
+        items.append((rid, e, rnd.getrandbits(30), "block"))
     for e in overlap_encodings(cr.seed):
         for k in range(4 if quick else 20):
             rid += 1
